@@ -18,6 +18,8 @@ Encoding contract with spec/Centering.tla (see its header):
   names    pfx + str(bn[i]) if bn[i] >= 0 else pfx + bs[i];   log2 = k[i] / U (dyadic grid; floats are exact)
   center   x / out / log.args / log.res = Num.Z records of round(value * 10^12) (base-10^4 limbs, little endian)
   shiftxx / flat / sex   so, fo = floor(value * U) with soff / foff = number of values not on the grid
+  route    how the CopyNumArray handed to the code was built (fresh / masked / permuted / offset row labels, same rows in
+           the same order); every encoder reads values by position, never by label
 """
 from __future__ import annotations
 
@@ -52,7 +54,7 @@ REQUIRE_CLAUSES = ["center_noerr", "center_uniform_shift", "center_differences_k
 
 BLANK_IN = {"op": "", "pfx": "chr", "genome": "none", "bn": [], "bs": [], "s": [], "e": [], "hasdepth": False, "dz": [],
             "U": 64, "k": [], "bychrom": True, "skiplow": False, "hapx": False, "isxx": False, "female": False,
-            "withy": False, "usew": False, "sdm": 0, "nx": 0, "sseed": 0, "w": [], "cli": False}
+            "withy": False, "usew": False, "sdm": 0, "nx": 0, "sseed": 0, "w": [], "cli": False, "route": "fresh"}
 BLANK_OUT = {"x": [], "out": [], "nout": 0, "outnan": False, "err": "", "digin": "", "digout": "", "log": [], "relog": [],
              "so": [], "soff": 0, "fo": [], "foff": 0, "guess": "", "dosex": "", "clisex": ""}
 INPUT_FIELDS = list(BLANK_IN)
@@ -138,7 +140,61 @@ def _table(inp, weights=False):
     import pandas as pd
     df = pd.DataFrame(data, columns=cols)
     df = df.astype({"chromosome": str, "start": int, "end": int, "gene": str, "log2": float})
-    return CNA(df, {"sample_id": "sample", "filename": "sample.cnr"})
+    return _by_route(CNA, df, inp.get("route", "fresh"), {"sample_id": "sample", "filename": "sample.cnr"})
+
+
+ROUTES = ("fresh", "masked", "permuted", "offset")
+
+
+def _by_route(CNA, df, route, meta):
+    """The same rows in the same order, built by one of four construction routes that differ only in the row index
+    labels (pandas aligns assignments and arithmetic by LABEL, so label-vs-position slips in the code under test are
+    invisible on a fresh 0..n-1 index):
+      fresh     labels 0..n-1
+      masked    boolean-mask selection out of a larger table with decoy rows in between: gapped labels
+      permuted  rows entered in another order and brought back by position, no reset_index: permuted labels
+      offset    labels start at 1000
+    """
+    import numpy as np
+    n = len(df)
+    if route == "masked" and n >= 1:
+        src, keep = [], []
+        for k in range(n):
+            if k % 2 == 0:                      # a decoy in front of every other row (and the first)
+                src.append(k), keep.append(False)
+            src.append(k), keep.append(True)
+        src.append(n - 1), keep.append(False)   # and one behind the last
+        keep = np.array(keep)
+        big = df.iloc[src].reset_index(drop=True)
+        big.loc[~keep, "log2"] = -1.375
+        big.loc[~keep, "gene"] = "decoy"
+        arr = CNA(big, meta)[keep]
+    elif route == "permuted" and n > 1:
+        perm = list(range(n))[::-1] if n < 4 else [k for k in range(n) if k % 3 == 1] + \
+            [k for k in range(n) if k % 3 == 2] + [k for k in range(n) if k % 3 == 0]
+        arr = CNA(df.iloc[perm].reset_index(drop=True), meta)
+        inv = [0] * n
+        for pos, k in enumerate(perm):
+            inv[k] = pos
+        arr.data = arr.data.iloc[inv]           # intended order again, labels stay permuted
+    else:
+        arr = CNA(df.copy(), meta)
+        if route in ("offset", "permuted"):
+            arr.data.index = arr.data.index + 1000
+    got = arr.data
+    if len(got) != n or list(got.columns) != list(df.columns) or any(
+            got[c].tolist() != df[c].tolist() for c in df.columns):
+        raise MachineryError(f"table construction route {route} did not reproduce the rows")
+    return arr
+
+
+def assign_routes(inputs, start=0):
+    """construction route as an input dimension: rotate over ROUTES, record by record
+    (VERIF_C15_ROUTES=fresh, development only, forces one route to show what a fresh index cannot see)"""
+    only = os.environ.get("VERIF_C15_ROUTES")
+    for k, t in enumerate(inputs):
+        t["route"] = only if only in ROUTES else ROUTES[(start + k) % len(ROUTES)]
+    return inputs
 
 
 class _Logged:
@@ -667,7 +723,7 @@ def run(ctx: Ctx):
                                  "Vals": _set([v + 2000 for v in sc["Vals"]]),   # cfg files hold no negative numbers
                                  "Depth": _bool(sc["Depth"]), "ShiftWithGenome": "FALSE"})
         r, states = ctx.mc(MC, cfg, timeout=3000, coverage=False)
-        inputs = _inputs_from_states(states)
+        inputs = assign_routes(_inputs_from_states(states), start=j)
         if len(inputs) * 2 != r.distinct:
             raise MachineryError(f"dump replay: {len(inputs)} ret states parsed, TLC reports {r.distinct} states")
         recs = ctx.execute(execute, inputs)
@@ -677,16 +733,18 @@ def run(ctx: Ctx):
     # ---- direction 2 (a): centring
     rounds = ({"median": 14, "mean": 14, "default": 8, "mode": 30, "biweight": 5} if thorough
               else {"median": 4, "mean": 4, "default": 2, "mode": 8, "biweight": 1})
-    rnd = ctx.execute(execute, center_inputs(ctx, rounds))
-    grid = ctx.execute(execute, grid_inputs(ctx, 4000 if thorough else 400))
+    rnd = ctx.execute(execute, assign_routes(center_inputs(ctx, rounds), start=1))
+    grid = ctx.execute(execute, assign_routes(grid_inputs(ctx, 4000 if thorough else 400), start=2))
     # ---- direction 2 (b): the sex ensemble
     nscen = int(os.environ.get("VERIF_C15_SCENARIOS", "0") or 0) or (4000 if thorough else 300)
     base = ctx.seed * 1_000_000
     scen = [sex_scenario(ctx.seed, base + j, cli=(j % (20 if thorough else 10) == 0)) for j in range(nscen)]
-    sex = ctx.execute(execute, scen)
+    sex = ctx.execute(execute, assign_routes(scen, start=3))
     all_records = mc_records + rnd + grid + sex
     for rec in all_records:
         ctx.count_input([rec[f] for f in INPUT_FIELDS], nontrivial=len(rec["bn"]) >= 2)
+        ctx.bump("route_" + rec["route"])
+        ctx.bump("route_" + rec["route"] + "_" + rec["op"].split(".")[0])
         if rec["op"].startswith("center."):
             _bump_center(ctx, rec)
         elif rec["op"] in ("sex", "sex.par"):
